@@ -34,7 +34,7 @@ vars == <<tid, l, cfg, rep, pendp, facts, dfacts, gone, win, winops, pre, s1, s2
 Tr == AllTraces[tid]
 ASSUME InitRegs
 
-NoCfg == [recursive |-> TRUE, full |-> FALSE, ty |-> "str", paced |-> TRUE, filter |-> << >>, contract |-> FALSE]
+NoCfg == [recursive |-> TRUE, full |-> FALSE, ty |-> "str", paced |-> TRUE, filter |-> << >>, filtered |-> FALSE, contract |-> FALSE, ty3 |-> "none"]
 Init == /\ tid \in 1..NTraces /\ l = 1 /\ cfg = NoCfg /\ rep = {} /\ pendp = {} /\ facts = {} /\ dfacts = {} /\ gone = [cur |-> {}, ever |-> {}, ret |-> {}] /\ win = << >> /\ winops = << >>
         /\ pre = {} /\ s1 = << >> /\ s2 = << >> /\ rootdel = 0 /\ viol = {}
 
@@ -273,7 +273,8 @@ Cb == /\ Line("cb") /\ Consume
               \* C02: a non-recursive watch never reports anything below the root's direct children
               \cup (IF ~cfg.recursive /\ ((x.hs /\ Len(x.src) > 1) \/ (x.hd /\ Len(x.dst) > 1)) THEN {"P_C02_NonRecursiveSilentBelow"} ELSE {})
               \* C19: path type preserved, every component is an exact name of the tree
-              \cup (IF (x.hs /\ Tr[l].ty # cfg.ty) \/ (x.hd /\ Tr[l].ty2 # cfg.ty) THEN {"P_C19_TypePreserved"} ELSE {})
+              \cup (LET want == IF h = 3 THEN cfg.ty3 ELSE cfg.ty IN       \* handler 3: the watch scheduled with the other string type
+                    IF (x.hs /\ Tr[l].ty # want) \/ (x.hd /\ Tr[l].ty2 # want) THEN {"P_C19_TypePreserved"} ELSE {})
               \cup (IF "?" \in SetOfSeq(x.src) \/ "?" \in SetOfSeq(x.dst) THEN {"P_C19_ExactName"} ELSE {})
       /\ UNCHANGED <<cfg, facts, dfacts, gone, winops, pre>>
 
@@ -302,7 +303,7 @@ Quiescent ==
 Final == /\ Line("final") /\ Consume
          /\ viol' = viol
               \* C11: the filtered handler got exactly the unfiltered stream restricted to the filter's classes
-              \cup (IF Len(cfg.filter) > 0 /\ Collapse(s2) # Collapse(Keep(s1)) THEN {"P_C11_FilterOnlyRemoves"} ELSE {})
+              \cup (IF cfg.filtered /\ Collapse(s2) # Collapse(Keep(s1)) THEN {"P_C11_FilterOnlyRemoves"} ELSE {})   \* (an EMPTY filter keeps nothing)
               \* C07: root deleted => exactly one DirDeleted(root) and the emitter stopped; otherwise the emitter is alive
               \cup (IF ~Tr[l].root_alive /\ rootdel # 1 THEN {"P_C07_RootDeletedOnce"} ELSE {})
               \cup (IF Tr[l].root_alive /\ rootdel # 0 THEN {"P_C07_RootDeletedOnce"} ELSE {})
